@@ -1058,6 +1058,26 @@ func (e *CEnv) trCall(x *CExpr) CVal {
 	case "fresh":
 		a := e.tr(x.Args[0])
 		return CVal{v.freshFact(a, e.old.alloc, e.st.alloc), boolT}
+	case "bytesframe": // bytesframe(e1, ..., en): every byte that existed at function entry and lies
+		// outside the capacity ranges of the slices e1..en (as they were at entry) has its entry value
+		if v.mode == "bv" {
+			unsupported("contract: bytesframe in bv mode")
+		}
+		byteT := types.Typ[types.Uint8]
+		_, hNow, _ := v.sliceHeap(e.st, byteT)
+		_, hOld, _ := v.sliceHeap(e.old, byteT)
+		b := v.fresh("q_fb", SInt)
+		i := v.fresh("q_fi", SInt)
+		conds := []*Term{existed(b, v.entry.alloc)}
+		for _, a := range x.Args {
+			o := e.atOld().tr(a)
+			if o.T.Sort != SSlice {
+				unsupported("contract: bytesframe arguments must be slices")
+			}
+			conds = append(conds, Not(And(Eq(b, SBase(o.T)), Le(SOff(o.T), i), Lt(i, Add(SOff(o.T), SCap(o.T))))))
+		}
+		body := Implies(And(conds...), Eq(Select(Select(hNow, b), i), Select(Select(hOld, b), i)))
+		return CVal{Forall([]*Term{b, i}, body, Select(Select(hNow, b), i)), boolT}
 	case "existed": // the object existed before the call
 		a := e.tr(x.Args[0])
 		var b *Term
